@@ -274,8 +274,8 @@ pub fn gen_valid_draft(c: &mut Choices) -> Draft {
     let mut m: BTreeMap<Vec<u8>, Vec<u8>> = BTreeMap::new();
     let ncustom = if c.chance(150) { c.range(0, 4) } else { 0 };
     let mut has_custom = false;
-    for _ in 0..ncustom {
-        let key = gen_custom_key(c);
+    for j in 0..ncustom {
+        let key = if j == 0 && c.chance(40) { vec![] } else { gen_custom_key(c) };
         if RESERVED.iter().any(|r| *r == key.as_slice()) {
             continue;
         }
@@ -1025,7 +1025,9 @@ pub fn finish(m: &Mutated, over: SignOver) -> Vec<u8> {
 // ---------------------------------------------------------------------------------------------
 // unsigned tampers (C01)
 
-pub const FIELD_TAMPERS: [&str; 18] = [
+pub const FIELD_TAMPERS: [&str; 20] = [
+    "dup-pair-unsigned-before",
+    "dup-pair-unsigned-after",
     "sig-strip-leading-zero",
     "sig-pad-leading-zero",
     "resign-other-key",
@@ -1209,6 +1211,24 @@ pub fn field_tamper(d: &Draft, which: &str, c: &mut Choices) -> Vec<u8> {
             if !found {
                 // pad instead: a 65-byte field with a leading zero
                 sig.insert(0, 0);
+            }
+        }
+        "dup-pair-unsigned-before" | "dup-pair-unsigned-after" => {
+            // splice an unsigned copy of a pair (same key, other value) next to the signed one; prefer
+            // the first pair (the empty key sorts first) and single-byte keys
+            let i = if c.bool() { 0 } else { c.below(emitted.kv.len()) };
+            let mut dup = emitted.kv[i].clone();
+            if let Some(v) = dup.1.as_mut() {
+                if let Ok(Item::Str(s)) = rlp::decode_exact(v) {
+                    let mut s2 = s.clone();
+                    s2.push(0x41);
+                    *v = rlp::encode_str(&s2);
+                }
+            }
+            if which.ends_with("before") {
+                emitted.kv.insert(i, dup);
+            } else {
+                emitted.kv.insert(i + 1, dup);
             }
         }
         "sig-bitflip" => {
